@@ -63,10 +63,12 @@ func c16Ops(u *nodelite.Universe, thorough bool) []c16Op {
 	}}
 	// A=[x,y]; E = the same content under another name (identical file under two manifests);
 	// P=[x] chunk-aligned prefix of A; D=[w,w] repeated chunk; B=[x,z] shares x with A.
-	ops = append(ops, up("E"), up("P"), cache("A"), cache("P"), cache("D"),
-		del("A"), del("E"), del("P"), restart)
+	// R=[x,x]: a chunk repeated inside one file AND shared with A, E, P, B (reference counting per
+	// file vs. per occurrence); D=[w,w] is the unrelated filler whose caching overflows the store.
+	ops = append(ops, up("E"), up("P"), up("R"), cache("A"), cache("R"), cache("D"),
+		del("A"), del("E"), del("P"), del("R"), restart)
 	if thorough {
-		ops = append(ops, up("A"), up("D"), del("D"), up("B"), cache("B"), cache("E"), del("B"), pin("A"), unpin("A"))
+		ops = append(ops, up("A"), up("D"), del("D"), up("B"), cache("B"), cache("E"), cache("P"), del("B"), pin("A"), unpin("A"))
 	}
 	return ops
 }
@@ -90,8 +92,8 @@ func c16Set(m map[string]bool) string {
 }
 
 func TestVerifC16(t *testing.T) {
-	names := []string{"A", "E", "P", "D", "B"}
-	letters := map[string]string{"A": "xy", "E": "xy", "P": "x", "D": "ww", "B": "xz"}
+	names := []string{"A", "E", "P", "D", "B", "R"}
+	letters := map[string]string{"A": "xy", "E": "xy", "P": "x", "D": "ww", "B": "xz", "R": "xx"}
 	u, err := nodelite.BuildUniverse(names, letters)
 	if err != nil {
 		t.Fatalf("universe: %v", err)
@@ -115,12 +117,16 @@ func TestVerifC16(t *testing.T) {
 		return m
 	}
 	mc.Run(t, mc.Config{ID: "C16", Name: "C16-delete-isolation", MaxDev: -1, Params: map[string]interface{}{
-		"depth": depth, "alphabet": opNames, "capacity": capacity, "files": letters, "chunk_size": boson.ChunkSize,
+		"depth": depth, "alphabet": opNames, "initial_states": "empty (depth steps) | E,P,R uploaded + A cached (depth-1 steps)", "capacity": capacity, "files": letters, "chunk_size": boson.ChunkSize,
 		"gc": "worker loop run synchronously after every operation that left a trigger pending",
 	}}, func(x *mc.X) {
 		n, err := nodelite.New(nodelite.Options{Capacity: capacity, Universe: u})
 		x.NoErr(err, "node")
 		defer n.Close()
+		// initial state: empty store (history of `depth` steps), or a store that already holds the
+		// overlapping files — E, P, R uploaded, A cached — so that delete -> re-register -> delete
+		// sequences over a fully shared chunk fit into a history of depth-1 steps
+		populated := x.Choose(2) == 1
 		known := map[string]bool{} // files uploaded through POST /aurora or fully cached, not deleted/evicted since
 		limbo := map[string]bool{} // files whose delete request failed: nothing is required of them any more
 		// files the user uploaded (POST /aurora) and has not deleted: when the cache entry of such a file
@@ -200,7 +206,26 @@ func TestVerifC16(t *testing.T) {
 				}
 			}
 		}
-		for step := 0; step < depth; step++ {
+		steps := depth
+		if populated {
+			steps = depth - 1
+			for _, f := range []string{"E", "P", "R"} {
+				c, ref := n.UploadAurora(f, u.ByName[f].Data, false)
+				if c != 201 || !ref.Equal(u.ByName[f].Root) {
+					x.Broken("initial upload of %s: %d", f, c)
+				}
+				known[f], uploadedByUser[f] = true, true
+			}
+			x.NoErr(n.Cache(u.ByName["A"]), "initial cache(A)")
+			known["A"] = true
+			s, err := n.Snap()
+			x.NoErr(err, "snapshot")
+			if s.Trigger {
+				x.Broken("initial state requests a collection run")
+			}
+			x.Logf("initial state: upload(E), upload(P), upload(R), cache(A)   [%s]", s.Key())
+		}
+		for step := 0; step < steps; step++ {
 			op := ops[x.Choose(len(ops))]
 			out := op.run(n)
 			s1, err := n.Snap()
@@ -286,7 +311,7 @@ func TestVerifC16(t *testing.T) {
 			x.NoErr(err, "infokey")
 			sk, err := n.Snap()
 			x.NoErr(err, "snapshot")
-			if x.Seen(sk.Key()+"#"+ik+"#K:"+c16Set(known)+"#L:"+c16Set(limbo)+"#U:"+c16Set(uploadedByUser), depth-step-1) {
+			if x.Seen(sk.Key()+"#"+ik+"#K:"+c16Set(known)+"#L:"+c16Set(limbo)+"#U:"+c16Set(uploadedByUser), steps-step-1) {
 				return
 			}
 		}
